@@ -2642,6 +2642,10 @@ class LinearOperator(object):
         if dim1 >= ndimension or dim2 >= ndimension or not isinstance(dim1, int) or not isinstance(dim2, int):
             raise RuntimeError("Invalid dimension")
 
+        # Exchanging a dimension with itself is the identity (as for torch.transpose on tensors)
+        if dim1 == dim2:
+            return self
+
         # Batch case
         if dim1 < ndimension - 2 and dim2 < ndimension - 2:
             small_dim = dim1 if dim1 < dim2 else dim2
